@@ -34,6 +34,14 @@ SETLESS_FORM = Contract(
                                f"{NAME}.startswith(max_restr))"),
         ("chosen_set_is_the_longest_match", f"forall({M}, lambda m: implies({NAME}.startswith(m), len(m) <= len(max_restr)))"),
     ],
+    # the same statement without the function's local `max_restr` (evaluable on the result alone): native replay only,
+    # z3 does not discharge the nested quantifier form within budget
+    native_ensures=[
+        ("longest_matching_set_stripped", f"exists(range(-1, len({M})), lambda j: let('' if j < 0 else {M}[j], lambda m: "
+                                          f"(j < 0 or {NAME}.startswith(m)) and "
+                                          f"forall({M}, lambda x: implies({NAME}.startswith(x), len(x) <= len(m))) and "
+                                          f"result == {NAME}.replace(m + '.', '', 1)))"),
+    ],
     result_kind=STR, frame=[], props=["C09", "C16"],
 )
 
